@@ -119,3 +119,14 @@ func TestFinding97to99_InsidePreAndHTMLPrefix(t *testing.T) {
 		t.Errorf("a document is still a document: %q", o1)
 	}
 }
+
+// row 113 — C19.R20: a no-break space at the edge of an attribute value is part of the value
+func TestFinding113_NoBreakSpaceAtTheEdgeOfAnAttributeValue(t *testing.T) {
+	o1, o2 := formatTwice(t, "<p title=\" x \">t</p>\n")
+	if !strings.Contains(o1, "title=\" x \"") && !strings.Contains(o1, "title=\"&nbsp;x&nbsp;\"") {
+		t.Errorf("the no-break spaces of the title are gone: %q", o1)
+	}
+	if o1 != o2 {
+		t.Errorf("not idempotent: %q / %q", o1, o2)
+	}
+}
